@@ -20,7 +20,7 @@ EXPECTED_PROBES = ['refill-with-partial-token', 'token-with-more-prefix', 'defau
 
 class P(sb.StreamProp):
     ID = ID
-    CLASSES = {'lineno'}
+    CLASSES = {'sanitizer', 'crash', 'lineno'}
     USE_MATCHER = False
 
     def gen_scenario(self, rng):
